@@ -31,7 +31,7 @@ ASSUMPTIONS = [
 ]
 NOT_REACHED = ["find_peaks_kwargs other than None/{}", "masks of the wrong length assigned by hand"]
 BUDGET = {"quick": dict(cases=1200, seconds=60, shards=4),
-          "thorough": dict(cases=40000, seconds=600, shards=16)}
+          "thorough": dict(cases=80000, seconds=600, shards=16)}
 REQUIRED = ["mon:textbook-estimator", "mon:accepted-only-twin", "mon:poisoned-rejected-rows-bit-identical",
             "mon:lognormal-reciprocity", "mon:alias-spelling", "mon:mean-curve-peak"]
 
